@@ -47,9 +47,11 @@ static std::optional<Failure> check_one(Run &R, const Bytes &b) {
                                                   (want ? "valid" : (wf ? "invalid (grammar)" : "invalid (malformed UTF-8)")) + ", is_6531_local returned " + std::to_string(rc)};
         }
     }
-    if (VET && b.size() <= 64 && b.find('@') == Bytes::npos) {   // the same verdict through eav_is_email on an object that reached mode 6531 through a history
-        v_outcome o = VET->is_email_tail(TB, b + "@ok.com"); R.eval();
-        if ((o.ret == 1) != want) return Failure{"6531-through-reused-object", mkcase(b).str(), "eav_is_email in mode 6531 (object set up 5321 -> 6531 -> refused setup -> 6531) on '" + show(b) + "@ok.com': " + outcome_str(o) + ", reference says the local part is " + (want ? "valid" : "invalid")};
+    if (VET && b.size() >= 1 && b.size() <= 64) {   // the same verdict through eav_is_email on an object that reached mode 6531 through a history; the domain part must not matter
+        static const char *DOMS[] = {"@ok.com", "@[1.2.3.4]", "@[IPv6:2001:db8::1]", "@\xD0\xBF\xD0\xBE\xD1\x87\xD1\x82\xD0\xB0.\xD1\x80\xD1\x84", "@ok.com", "@[IPv6:::ffff:1.2.3.4]"};
+        Bytes dom = DOMS[hashs(b, 5) % 6];
+        v_outcome o = VET->is_email_tail(TB, b + dom); R.eval();
+        if ((o.ret == 1) != want) return Failure{"6531-through-reused-object", mkcase(b).str(), "eav_is_email in mode 6531 (object set up 5321 -> 6531 -> refused setup -> 6531) on '" + show(b) + dom + "': " + outcome_str(o) + ", reference says the local part is " + (want ? "valid" : "invalid")};
     }
     if (r_at != r_nul)
         return Failure{"terminator-dependent", mkcase(b).str(), "return code differs between '@' and NUL terminator: " + std::to_string(r_at) + " vs " + std::to_string(r_nul)};
